@@ -496,6 +496,83 @@ func rulesC03(c *Ctx) {
 		c.Pin("goroutines started by the streamable client's Write", m, 2)
 	})
 
+	c.Rule("R-C03-11", "a notifying method has sent its notification when it returns: handleNotify runs on the caller's goroutine, or on goroutines the caller joins (sync.WaitGroup / errgroup Wait on every path to the return) — a fan-out that is not joined, or joined by counting len() of a channel, lets the caller's next message overtake the notification", func() {
+		hn := c.FnObj(pM, "", "handleNotify")
+		nSites, nGo := 0, 0
+		for _, f := range c.funcsWithLits(pM) {
+			if f.Lit != nil {
+				continue // literals are visited through their declared function
+			}
+			lits := f.AllLits()
+			notifying := map[*Func]bool{}
+			if len(f.CallsIn(f.Body, hn, false)) > 0 {
+				nSites++
+			}
+			for _, l := range lits {
+				if len(l.CallsIn(l.Body, hn, false)) > 0 {
+					notifying[l] = true
+					nSites++
+				}
+			}
+			// literals that call a local variable bound to a notifying literal (two rounds: a wrapper of a wrapper)
+			for round := 0; round < 2; round++ {
+				vars := map[types.Object]bool{}
+				for l := range notifying {
+					if as, ok := l.Parent.ParentOf(l.Lit).(*ast.AssignStmt); ok && len(as.Lhs) == 1 {
+						if o := l.Parent.ObjOf(as.Lhs[0]); o != nil {
+							vars[o] = true
+						}
+					}
+				}
+				for _, l := range lits {
+					for _, call := range l.AllCalls(l.Body, false) {
+						if o := l.ObjOf(call.Fun); o != nil && vars[o] {
+							notifying[l] = true
+						}
+					}
+				}
+			}
+			for _, holder := range append([]*Func{f}, lits...) {
+				hg := holder.Graph()
+				for _, gs := range holder.goStmts() {
+					started := holder.LitArgOfGo(gs)
+					isNotifier := started != nil && notifying[started]
+					if started == nil {
+						// go notify(s) / go handleNotify(...)
+						if o := holder.ObjOf(gs.Call.Fun); o != nil {
+							if o == types.Object(hn) {
+								isNotifier = true
+							}
+							for l := range notifying {
+								if as, ok := l.Parent.ParentOf(l.Lit).(*ast.AssignStmt); ok && len(as.Lhs) == 1 && l.Parent.ObjOf(as.Lhs[0]) == o {
+									isNotifier = true
+								}
+							}
+						}
+					}
+					if !isNotifier {
+						continue
+					}
+					nGo++
+					c.touch(holder)
+					joined, _ := hg.MustPass(hg.VertexOf(gs), hg.Exits, func(v int) bool {
+						for _, call := range holder.AllCalls(hg.Node(v), false) {
+							if fn := holder.Callee(call); fn != nil && fn.Name() == "Wait" && fn.Pkg() != nil && (fn.Pkg().Path() == "sync" || strings.HasSuffix(fn.Pkg().Path(), "/errgroup")) {
+								return true
+							}
+						}
+						return false
+					})
+					c.Check(joined, "notify-on-the-callers-goroutine:"+holder.Name(), holder, gs, "a goroutine that sends a notification is joined (WaitGroup/errgroup Wait) on every path before the notifying function returns")
+				}
+			}
+		}
+		c.Pin("handleNotify call sites in mcp", nSites, 3)
+		if nGo == 0 {
+			c.Ok("notify-on-the-callers-goroutine", nil, nil, "no goroutine is started to send a notification (%d handleNotify sites, all synchronous)", nSites)
+		}
+	})
+
 	c.Import("R-C03-10", "nothing is answered ahead of the queue: the preempter (which runs on the read goroutine, before the request is queued) never produces a result, it only observes cancellations", "C04", "R-C04-2", func(k string) bool { return strings.HasPrefix(k, "Preempt:return") })
 	c.Import("R-C03-8", "a resumed stream does not hand the client older messages after newer ones: on resume the stream's index is re-based to the position actually replayed (live ids continue from there)", "C08", "R-C08-2", func(k string) bool { return strings.HasPrefix(k, "lastIdx") || strings.HasPrefix(k, "acquireStream") })
 
